@@ -5,7 +5,7 @@
 #    (quick tier), reverts /repo; 3. stores patch, demo and meta under /verif/seeded/<PROP>-<n>/.
 set -u
 PROP=$1; N=$2; shift 2; CHECKS="$@"
-WT=/tmp/mut-$PROP; OUT=/tmp/mut-$PROP-out
+PFX=${MUTPFX:-/tmp/mut}; WT=$PFX-$PROP; OUT=$PFX-$PROP-out
 PATCH=$OUT/patch_$N.diff; DEMO=$OUT/demo_$N.rs
 DEST=/verif/seeded/$PROP-$N
 [ -f "$PATCH" ] || { echo "no patch $PATCH"; exit 2; }
